@@ -65,7 +65,7 @@ func mkSide(cues []cueSpec, styles, regions []string, bare bool, tag string, bar
 	}
 	var items []*astisub.Item
 	for i, c := range cues {
-		it := &astisub.Item{StartAt: time.Duration(c.S), EndAt: time.Duration(c.E), Lines: textLines(c.T), Index: i}
+		it := &astisub.Item{StartAt: time.Duration(c.S), EndAt: time.Duration(c.E), Lines: textLines(c.T), Index: 7 + i}
 		if len(styles) > 0 {
 			it.Style = s.Styles[styles[i%len(styles)]]
 		}
